@@ -432,6 +432,9 @@ func (x *Engine) applyContract(fr *Frame, st *State, fs *FuncSpec, sig *types.Si
 			x.objInvs[key+": "+c.Text] = true
 			continue
 		}
+		if len(c.Props) > 0 && !hasProp(c.Props, x.curProp) {
+			continue // a precondition that belongs to another property's clause set
+		}
 		ev := &Eval{x: x, st: st, old: st, env: env, pkg: pkg}
 		g := x.safeEvalBool(ev, c)
 		lab := c.Label
@@ -441,7 +444,10 @@ func (x *Engine) applyContract(fr *Frame, st *State, fs *FuncSpec, sig *types.Si
 		if i == 0 {
 			x.ordinals["call:"+key]++
 		}
-		x.oblige(st, fmt.Sprintf("call[%s#%d].requires", shortKey(key), x.ordinals["call:"+key]), lab, g, c.Text+" (call at "+pos+")", pos)
+		ro := x.oblige(st, fmt.Sprintf("call[%s#%d].requires", shortKey(key), x.ordinals["call:"+key]), lab, g, c.Text+" (call at "+pos+")", pos)
+		if len(c.Props) > 0 && ro != nil {
+			ro.Props = c.Props
+		}
 	}
 	if fs.Pure {
 		var recv Val
@@ -687,6 +693,14 @@ func (x *Engine) modKeyStatic(fs *FuncSpec, m *Clause) (keys []string, ok bool) 
 		}
 	}()
 	n := m.Expr
+	if n.Op == "call" && len(n.Args) > 0 && n.Args[0].Op == "ident" && (n.Args[0].Name == "wlockcount" || n.Args[0].Name == "rlockcount") {
+		key := "Lock:w"
+		if n.Args[0].Name == "rlockcount" {
+			key = "Lock:r"
+		}
+		x.regComp(key, "(Array Int Int)")
+		return []string{key}, true
+	}
 	if n.Op == "ident" {
 		if _, isG := x.db.Ghosts[n.Name]; isG {
 			x.regComp("ghost:"+n.Name, x.db.Ghosts[n.Name].Sort)
